@@ -37,12 +37,16 @@ def scenario(g, i):
     return tree, search, replace
 
 
-def one_case(R, H, M, tree, search, replace, out):
+def one_case(R, H, M, tree, search, replace, out, rnd=None):
     tj = cli.tree_json(tree)
     sr = H.ask({"op": "scan_tree", "tree": tj, "search": core.hx(search), "replace": core.hx(replace)})
     if not sr.get("ok"):
         return
     plan = sr["plan"]
+    # a plan is a set of positioned edits: the order in which plan.json lists them must not matter
+    if rnd is not None and len(plan["matches"]) > 1 and rnd.random() < 0.35:
+        rnd.shuffle(plan["matches"])
+        out["shuffled_plans"] += 1
     t0 = al.tree_dict(tree)
     ref = al.reference_apply(t0, plan)
     nontrivial = bool(plan["matches"] or plan["paths"])
@@ -100,10 +104,10 @@ def run(R):
     H, M = core.Harness([str(hp)]), core.Model([str(mp)])
     g = gen.G(R.seed * 31337 + 2)
     n = 150 if R.tier == "quick" else 3000
-    out = {"fail": [], "dis": [], "hunks": 0, "renames": 0, "dir_renames": 0, "skipped_collision": 0}
+    out = {"fail": [], "dis": [], "hunks": 0, "renames": 0, "dir_renames": 0, "skipped_collision": 0, "shuffled_plans": 0}
     for i in range(n):
         tree, search, replace = scenario(g, i)
-        one_case(R, H, M, tree, search, replace, out)
+        one_case(R, H, M, tree, search, replace, out, rnd=g.r)
     # CLI level: plan -> apply from the saved file on an unchanged tree
     cli_n = 5 if R.tier == "quick" else 40
     for i in range(cli_n):
@@ -130,7 +134,7 @@ def run(R):
                                     "diff": repr(cli.diff_snap(snap, al.sha_dict(ref)))[:1200]})
     H.close()
     M.close()
-    R.coverage["input_distribution"] = {k: out[k] for k in ("hunks", "renames", "dir_renames", "skipped_collision")}
+    R.coverage["input_distribution"] = {k: out[k] for k in ("hunks", "renames", "dir_renames", "skipped_collision", "shuffled_plans")}
     R.disagreements = len(out["dis"])
     for f in out["fail"][:3]:
         R.violation(f["why"], {"kind": "impl_failure", **f})
@@ -148,7 +152,7 @@ def replay(R, obj):
     hp, _ = core.build_harness()
     mp, _ = core.build_model()
     H, M = core.Harness([str(hp)]), core.Model([str(mp)])
-    out = {"fail": [], "dis": [], "hunks": 0, "renames": 0, "dir_renames": 0, "skipped_collision": 0}
+    out = {"fail": [], "dis": [], "hunks": 0, "renames": 0, "dir_renames": 0, "skipped_collision": 0, "shuffled_plans": 0}
     if "tree" in obj and "search" in obj:
         one_case(R, H, M, cli.tree_from_json(obj["tree"]), obj["search"], obj["replace"], out)
     print(json.dumps({"failures": [f["why"] for f in out["fail"]], "disagreements": [d["why"] for d in out["dis"]]}, indent=1))
